@@ -266,6 +266,32 @@ Definition lower_c (c : Z) : Z := if (65 <=? c) && (c <=? 90) then c + 32 else c
 Definition ascii_upper (s : str) : str := map upper_c s.
 Definition ascii_lower (s : str) : str := map lower_c s.
 
+(* ---- hex, isString, escapeRegex ------------------------------------------------------------------ *)
+Definition hex_digit (d : Z) : Z := if d <? 10 then 48 + d else 87 + d.
+Fixpoint hex_go (fuel : nat) (n : Z) (acc : str) : str :=
+  match fuel with
+  | O => acc
+  | S f => let acc' := hex_digit (n mod 16) :: acc in if n <? 16 then acc' else hex_go f (n / 16) acc'
+  end.
+Definition hex_abs (n : Z) : str := 48 :: 120 :: hex_go (S (Z.to_nat (Z.log2 n))) n [].
+(* Python hex(): "0x.." lower case, "-0x.." for negatives *)
+Definition hex_of (n : Z) : str := if n <? 0 then 45 :: hex_abs (- n) else hex_abs n.
+
+Definition is_string (v : scalar) : bool := match v with SStr _ => true | _ => false end.
+(* isRegex: None stands for a regex object, Some v for a scalar *)
+Definition is_regex (v : option scalar) : bool := match v with None => true | Some _ => false end.
+
+(* re.escape of the running interpreter: exactly these characters get a backslash:
+   ( ) [ ] { } ? * + - | ^ $ \ . & ~ # space \t \n \r \v \f *)
+Definition re_special : str := [40; 41; 91; 93; 123; 125; 63; 42; 43; 45; 124; 94; 36; 92; 46; 38; 126; 35; 32; 9; 10; 13; 11; 12].
+Definition escape_regex (s : str) : str := flat_map (fun c => if memb c re_special then [92; c] else [c]) s.
+(* reading an escaped text back: a backslash makes the next character literal *)
+Fixpoint unescape (s : str) : str :=
+  match s with
+  | [] => []
+  | c :: r => if c =? 92 then match r with d :: r' => d :: unescape r' | [] => [] end else c :: unescape r
+  end.
+
 (* ---- characters() ----------------------------------------------------------------------------- *)
 Fixpoint zrange (a : Z) (k : nat) : str := match k with O => [] | S k' => a :: zrange (a + 1) k' end.
 Definition c_digits := zrange 48 10.
@@ -327,7 +353,11 @@ Inductive call :=
 | KConcat (parts : list str)
 | KStr (v : scalar)
 | KUpper (s : str)
-| KLower (s : str).
+| KLower (s : str)
+| KHex (n : Z)
+| KIsString (v : scalar)
+| KIsRegex (v : option scalar)
+| KEscapeRegex (s : str).
 
 Inductive res :=
 | RNull
@@ -369,6 +399,10 @@ Definition eval (c : call) : res :=
   | KStr v => RStr (str_of v)
   | KUpper s => RStr (ascii_upper s)
   | KLower s => RStr (ascii_lower s)
+  | KHex n => RStr (hex_of n)
+  | KIsString v => RBool (is_string v)
+  | KIsRegex v => RBool (is_regex v)
+  | KEscapeRegex s => RStr (escape_regex s)
   end.
 
 Definition res_eqb (a b : res) : bool :=
